@@ -90,6 +90,7 @@ func init() {
 			zs := zooms(tier)
 			full := tier == "thorough"
 			return []engine.Phase{
+				longPointListPhase(tier),
 				{Name: "lon-alt-exact", ShardDepth: 2, Bounds: engine.Bounds{InputDev: -1},
 					Rule: "full product h x v x lon in lonAlphabet(h) x alt in altAlphabet(v) (lat fixed per h from 3 classes): x and f equal the exact rational floor, 0 <= x < 2^h; spatial form agrees when h = v; non-trivial = distinct (h,lon) within 2 ulp of a column boundary or (v,alt) within 2 ulp of a cell boundary",
 					Body: func(c *engine.Ctx) {
